@@ -72,3 +72,21 @@ fn merge_wrapper_two_more_files() {
 fn merge_wrapper_one_more_file() {
     wrapper_case(1);
 }
+
+// A further input that cannot be loaded (wrong integer width for its k, damaged file) must stop the merge before
+// anything is written.  On the unchanged tree this harness FAILS, and only with the panic of `.expect("Failed to load
+// input file ...")` inside merge (check `std::result::unwrap_failed.assertion`; Kani does not keep the formatted
+// message): the driver accepts exactly that outcome (KANI_GROUPS[..]["expect_fail_only"]) and reports a pass, or a
+// failure of any other check, as a violation.
+#[kani::proof]
+#[kani::unwind(6)]
+#[kani::stub(MergeSkaArray::load, load_stub)]
+#[kani::stub(MergeSkaArray::to_dict, to_dict_stub)]
+#[kani::stub(MergeSkaDict::extend, extend_stub)]
+#[kani::stub(crate::generic_modes::save_skf, save_stub)]
+fn merge_wrapper_refuses_unloadable_file() {
+    let first = marked_array::<u64>(1);
+    let files: Vec<String> = vec![String::from("b"), String::from("x")];
+    crate::generic_modes::merge(&first, &files, "o");
+    assert!(false, "merge returned although an input file could not be loaded");
+}
